@@ -294,11 +294,15 @@ def run(ctx) -> None:
     mh = cfg.methods.get("_make_header")
     mps = ctx.paths(f"{ENV}.EnvelopeConfig._make_header") if mh else []
     ok = bool(mps) and all(p.kind == "return" and u(p.value) == "EnvelopeHeader(self.format, self.zstd is not None)" for p in mps)
-    ctx.check(ok, "C09.R2", "EnvelopeConfig._make_header", m.path, mh.lineno if mh else 1,
-              "the header's flag must be `zstd is not None` (level 0 is a valid compression level)", mh, found="; ".join(p.describe() for p in mps)[:200])
+    if mh is not None:
+        ctx.check(ok, "C09.R2", "EnvelopeConfig._make_header", m.path, mh.lineno if mh else 1,
+                  "the header's flag must be `zstd is not None` (level 0 is a valid compression level)", mh, found="; ".join(p.describe() for p in mps)[:200])
     me = m.functions.get("make_envelope")
     pk_p, cf_p = me.args.args[0].arg, me.args.args[1].arg
-    eps = [p for p in ctx.paths(f"{ENV}.make_envelope") if p.kind == "return"]
+    # (stated on the writer with the header helper seen through, wherever that helper lives and whatever it is called)
+    eps = [p for p in ctx.paths(f"{ENV}.make_envelope", inline=("_make_header",)) if p.kind == "return"]
+    if mh is None:
+        ctx.ok("C09.R2", "EnvelopeConfig._make_header", "no such method: the header construction is judged where make_envelope writes it")
     ok_c = ok_h = bool(eps)
     payloads = {}
     for p in eps:
@@ -307,7 +311,7 @@ def run(ctx) -> None:
         if parts is None or len(parts) < 2 or not z:
             ok_c = ok_h = False
             continue
-        ok_h = ok_h and parts[0] == ("bytes", f"{cf_p}._make_header().to_bytes()")
+        ok_h = ok_h and parts[0] in (("bytes", f"{cf_p}._make_header().to_bytes()"), ("bytes", f"EnvelopeHeader({cf_p}.format, {cf_p}.zstd is not None).to_bytes()"))
         body = parts[1:]
         if z[0]:
             e = tmatch(ast.parse(body[0][1], mode="eval").body, T(f"pyzstd.compress(E_p, {cf_p}.zstd)")) if len(body) == 1 else None
